@@ -36,6 +36,9 @@ func c33Clients() []gridClient {
 		if n.Name == "HelloChrome_112_PSK_Shuf" {
 			out = append(out, fakePSKInjected(n))
 		}
+		if n.Name == "HelloChrome_131" {
+			out = append(out, replayedHybridShare(n))
+		}
 	}
 	return out
 }
